@@ -19,6 +19,13 @@ How the statement is decomposed (every link is an obligation on the real functio
     the documented composition of numpy.linspace columns / position lists (descriptions over assumed numpy / cycler /
     snake_cyclers contracts); scan, list_scan, grid_scan, list_grid_scan, inner_product_scan, x2x_scan are exactly ONE
     scan_nd (scan) call on that trajectory with metadata (num_points, shape, extents, snaking, motors) equal to it.
+ 4. recorded metadata (what reaches the start document): scan_nd records every entry of its md argument as given (it wins
+    over scan_nd's own num_points / motors / plan_name ...), scan hands its md argument on; on top of that each plan's
+    num_points / num_intervals (COUNTS), shape / extents / snaking (extents of a position list = its lowest and highest
+    position, for ANY list: descending, non-monotone, repeated, single position) and plan_args / plan_pattern_args (ARGS:
+    the call spelled out - detectors, per axis motor and numbers / positions in order, num, per_step) describe the call.
+    Position lists are (a) abstract lists of arbitrary length whose elements can be read (PosList) and (b) real Python
+    lists of 1-3 symbolic positions, so that first/last-for-min/max, sorting, reversing, de-duplicating slips are refuted.
 """
 import os
 
@@ -52,10 +59,19 @@ TRUSTED = [
     "points of a trajectory / motors of a point are arbitrary and pairwise distinct from the ones seen (dictionary keys)",
     "enumerated shapes (contents symbolic): 1-3 motors / axes for the pattern builders and plans, 0-3 motors for the concrete per-step "
     "tasks (move_per_step and the loops of scan_nd / log_scan / _scan_1d are proved for any number of motors / points), two detectors",
+    "position lists (assumed contract of Python lists of reals, contracts/C25.py PosList): a list of arbitrary length L >= 1; x[k] / x[-k] "
+    "is an element (IndexError outside), the same place read twice gives the same element; every element lies in [min(x), max(x)] and both "
+    "are attained; list(x) has the same positions; sorted(x) is ascending (first = min, last = max), reversed(x) / x[::-1] has place j = place "
+    "L-1-j of x; as trajectories sorted / reversed lists are NOT x (no monotonicity is assumed); any other operation on such a list is an "
+    "engine error, not a proof.  The tasks '... lists of 1-3 symbolic positions' (labelled bounded) run list_scan / list_grid_scan on real "
+    "Python lists of 1-3 symbolic reals per axis (1-2 axes): every list operation is then the engine's own",
+    "repr(x) is a function of the object x (asked twice about the same device / list it answers the same string); the name of the module "
+    "bluesky.plan_patterns (recorded as plan_pattern_module) is not modelled",
 ]
 NOT_DECIDED = ("numeric values inside numpy.linspace / logspace and the element order of cycler products (C26 decides snake_cyclers); "
                "pseudo-positioner merging in merge_cycler; what one reading consists of (trigger_and_read: C15) and what the RunEngine does with "
-               "the messages; user metadata that overrides num_points / shape / extents / plan_pattern_args; grid scans with more than 3 axes "
+               "the messages; user metadata that overrides num_points / shape / extents / plan_pattern_args (it is recorded as given: scan_nd "
+               "'md argument' clause); the hints entries of the metadata and plan_pattern_module; grid scans with more than 3 axes "
                "(the ambiguous 24-argument classification of classify_outer_product_args_pattern is not reached); per_step is NOT handed on by "
                "inner_product_scan (it passes per_step=None - outside the statement, reported as an observation)")
 REF_FILE = "contracts/refs/c25.py"
@@ -496,6 +512,7 @@ def cache_descr(I, seen):
 
 
 MD_ND = QS + "#ensures[recorded num_points == len(cycler), num_intervals == num_points - 1, motors / detectors named, staged = detectors + motors]"
+MD_ARG = QS + "#ensures[every entry of the md argument is recorded as given: it takes precedence over scan_nd's own entries]"
 SIGS = {"nd": [("detectors", "POSITIONAL_OR_KEYWORD", False), ("step", "POSITIONAL_OR_KEYWORD", False), ("pos_cache", "POSITIONAL_OR_KEYWORD", False)],
         "nd+take_reading": [("detectors", "POSITIONAL_OR_KEYWORD", False), ("step", "POSITIONAL_OR_KEYWORD", False), ("pos_cache", "POSITIONAL_OR_KEYWORD", False),
                             ("take_reading", "POSITIONAL_OR_KEYWORD", True)],
@@ -506,14 +523,14 @@ SIGS = {"nd": [("detectors", "POSITIONAL_OR_KEYWORD", False), ("step", "POSITION
 def _scan_nd_task(n_motors):
     @task(f"scan_nd[{n_motors} motors]", PROP, functions=[QS, f"{QS}.inner_scan_nd", f"{QS}._verify_nd_step", f"{QS}._verify_1d_step", f"{QS}.adapter",
                                                           "bluesky.utils:merge_cycler", "bluesky.utils:merge_axis"],
-          expect=[QS + TRACE, QS + OUTCOME, MD_ND], covers=[f"{QS}: terminated by return", f"{QS}: closed at an established cut point"])
+          expect=[QS + TRACE, QS + OUTCOME, MD_ND, MD_ARG], covers=[f"{QS}: terminated by return", f"{QS}: closed at an established cut point"])
     def t(I):
         import collections
         w = I.w
         how = w.choose(["default", "nd", "nd+take_reading", "1d", "other"], "per_step")
         predeclare = how == "default" and w.choose([False, True], "BLUESKY_PREDECLARE")
         hints = w.choose([False, True], "motors have hints")
-        user_md = w.choose([None, "user"], "md")
+        user_md = w.choose([None, "user", "caller"], "md")
         b, ref = new_bisim(I, QS, replay="scans.scan_nd")
         env = ScanEnv(I, b, predeclare)
         w.stubs[("bluesky.utils", "groupby")] = native(lambda I_, a, k: _groupby(I_, a[0], a[1]))
@@ -541,8 +558,15 @@ def _scan_nd_task(n_motors):
         else:
             per_step = Pi
             per_step._params = SIGS[how]
-        b.extra = lambda: {"per_step": how, "predeclare": predeclare, "n_motors": n_motors, "points": len(seq.elements())}
+        b.extra = lambda: {"per_step": how, "predeclare": predeclare, "n_motors": n_motors, "points": len(seq.elements()), "md": user_md}
         md = {"purpose": "user"} if user_md else None
+        if user_md == "caller":
+            # what scan / list_scan / grid_scan / list_grid_scan hand over: their own description of the scan, which is what
+            # must end up in the start document (ordered motors, shape / extents / snaking, counts, plan_args)
+            md = {"plan_name": "some_plan", "motors": tuple(x.name for x in reversed(motors)), "shape": (w.int("md_shape"),),
+                  "extents": ([w.real("md_lo"), w.real("md_hi")],), "snaking": (False,), "num_points": w.int("md_num_points"),
+                  "num_intervals": w.int("md_num_intervals"), "plan_args": {"args": [w.real("md_arg")]}, "plan_pattern_args": {"num": w.int("md_num")}}
+        md_given = dict(md) if md else {}
         ri = catch(I, I.get_function(QS), list(dets), cyc, per_step=per_step, md=md)
         if ri[0] == "raise":
             raise EngineError("scan_nd is a generator function: nothing runs before the first send")
@@ -569,9 +593,16 @@ def _scan_nd_task(n_motors):
         if "md" in rec:
             m = rec["md"]
             ok = (isinstance(m, dict) and set(m.get("motors", ())) == {x.name for x in motors} and m.get("detectors") == [d.name for d in dets]
-                  and m.get("plan_name") == "scan_nd" and rec.get("stage", [])[:2] == dets and set(rec.get("stage", [])[2:]) == set(motors)
-                  and len(rec.get("stage", [])) == 2 + n_motors and (not user_md or m.get("purpose") == "user"))
-            w.check(MD_ND, And(Eq(m.get("num_points"), N), Eq(m.get("num_intervals"), N - 1)) if ok else False, b.info("metadata"))
+                  and (m.get("plan_name") == "scan_nd" or user_md == "caller") and rec.get("stage", [])[:2] == dets and set(rec.get("stage", [])[2:]) == set(motors)
+                  and len(rec.get("stage", [])) == 2 + n_motors and (user_md != "user" or m.get("purpose") == "user"))
+            if user_md != "caller":
+                w.check(MD_ND, And(Eq(m.get("num_points"), N), Eq(m.get("num_intervals"), N - 1)) if ok else False, b.info("metadata"))
+            else:
+                w.check(MD_ND, ok, b.info("metadata"))
+            # the md argument wins: every entry of it is recorded as given (the calling plans rely on this for their ordered
+            # motors, shape, extents, snaking, counts and plan_args)
+            w.check(MD_ARG, And(*[same_value(I, m.get(key), val) for key, val in md_given.items()]) if isinstance(m, dict) and all(key in m for key in md_given) else False,
+                    b.info("metadata: entries of the md argument"))
     return t
 
 
@@ -637,17 +668,81 @@ def array_value(descr, length):
     return o
 
 
+class PosList:
+    """a list of positions of ARBITRARY length L >= 1 as given to list_scan / list_grid_scan (assumed contract of Python
+    lists of reals): an element is decided when it is first read (x[k], x[-k]; IndexError outside the list); reading the
+    same place twice gives the same element; every element lies in [min(x), max(x)], and both are attained (at places
+    argmin / argmax).  Derived views: sorted(x) (ascending: first = min, last = max), reversed(x) / x[::-1]
+    (place j is place L-1-j of x) - as trajectories they are NOT x (x is not assumed to be monotone)."""
+
+    def __init__(self, w, i):
+        self.w, self.i = w, i
+        self.L = w.int(f"len_list{i}")
+        self.lo, self.hi = w.real(f"min_list{i}"), w.real(f"max_list{i}")
+        self.kmin, self.kmax = w.int(f"argmin_list{i}"), w.int(f"argmax_list{i}")
+        w.add(And(self.L >= 1, self.lo <= self.hi, self.kmin >= 0, self.kmin < self.L, self.kmax >= 0, self.kmax < self.L,
+                  Implies(Eq(self.kmin, self.kmax), Eq(self.lo, self.hi))))
+        self.elems = []                                  # (place, value)
+        self.views = {}
+        self.base = self.view("list")
+
+    def element(self, j, label):
+        w = self.w
+        for jj, e in self.elems:
+            if jj is j or repr(jj) == repr(j):
+                return e
+        e = w.real(f"list{self.i}_{label}")
+        w.add(And(self.lo <= e, e <= self.hi, Implies(Eq(j, self.kmin), Eq(e, self.lo)), Implies(Eq(j, self.kmax), Eq(e, self.hi)),
+                  *[Implies(Eq(j, jj), Eq(e, ee)) for jj, ee in self.elems]))
+        self.elems.append((j, e))
+        return e
+
+    def getitem(self, kind):
+        def get(I, o, k):
+            if isinstance(k, slice):
+                if k.start is None and k.stop is None and k.step in (None, 1):
+                    return o
+                if k.start is None and k.stop is None and k.step == -1:
+                    return self.view({"list": "reversed", "reversed": "list"}.get(kind) or _no_list_contract(f"{kind}[::-1]"))
+                _no_list_contract(f"slice {k!r}")
+            if isinstance(k, bool) or not (isinstance(k, int) or (isinstance(k, Sym) and k.kind == "int")):
+                _no_list_contract(f"index {k!r}")
+            neg = I.truth(ops.compare("<", k, 0), "negative index")
+            j = ops.binop("+", self.L, k) if neg else k
+            if I.truth(Or(ops.compare("<", j, 0), ops.compare(">=", j, self.L)), "index outside the list"):
+                I.raise_("IndexError", "list index out of range")
+            label = (f"at_m{-k}" if neg else f"at_{k}") if isinstance(k, int) else f"at_sym{len(self.elems)}"
+            if kind == "list":
+                return self.element(j, label)
+            if kind == "reversed":
+                if not isinstance(k, int):
+                    _no_list_contract("symbolic index into a reversed list")
+                return self.element(ops.binop("-", ops.binop("-", self.L, 1), j), f"at_{-k - 1}" if neg else f"at_m{k + 1}")
+            # sorted: ascending
+            if I.truth(Eq(j, 0), "first of sorted"):
+                return self.lo
+            if I.truth(Eq(j, ops.binop("-", self.L, 1)), "last of sorted"):
+                return self.hi
+            _no_list_contract("inner element of a sorted list")
+        return get
+
+    def view(self, kind):
+        if kind not in self.views:
+            o = array_value(None, self.L)
+            o.name = f"positions{self.i}" if kind == "list" else f"{kind}(positions{self.i})"
+            o.spec["getitem"] = self.getitem(kind)
+            o.attrs.update({"$col": (kind, self.views["list"] if kind != "list" else o), "$min": self.lo, "$max": self.hi, "$poslist": (self, kind)})
+            self.views[kind] = o
+        return self.views[kind]
+
+
+def _no_list_contract(what):
+    raise EngineError(f"abstract position list: {what}: no assumed contract")
+
+
 def position_list(w, i):
-    """a list of positions of arbitrary length as given to list_scan / list_grid_scan (only its length, minimum and
-    maximum are looked at by the plans; the values go to cycler)"""
-    L = w.int(f"len_list{i}")
-    w.add(L >= 1)
-    o = array_value(None, L)
-    o.name = f"positions{i}"
-    o.attrs["$col"] = ("list", o)
-    o.attrs["$min"] = w.real(f"min_list{i}")
-    o.attrs["$max"] = w.real(f"max_list{i}")
-    return o, L
+    p = PosList(w, i)
+    return p.base, p.L
 
 
 class PatternEnv:
@@ -678,6 +773,9 @@ class PatternEnv:
             motor, col = a
             if isinstance(col, Opaque) and "$col" in col.attrs:
                 return cyc_value(I_, Cyc(("col", motor, col.attrs["$col"]), [motor], col.attrs["$len"]))
+            if isinstance(col, (list, tuple)) and all(isinstance(x, (Sym, int, float)) and not isinstance(x, bool) for x in col):
+                # a concrete list of (symbolic) positions: the column IS its values, in order
+                return cyc_value(I_, Cyc(("col", motor, ("values", tuple(col))), [motor], len(col)))
             raise EngineError(f"cycler(motor, {col!r}): not a modelled column")
 
         def reduce_(I_, a, k):
@@ -734,10 +832,24 @@ class PatternEnv:
                 r = builtin.impl(I_, a, k)
                 return (yield from r) if builtin.gen else r
             return f
+        bsorted, breversed = I.builtins["sorted"], I.builtins["reversed"]
+
+        def mkview(kind, builtin):
+            def f(I_, a, k):
+                if len(a) == 1 and not k and isinstance(a[0], Opaque) and "$poslist" in a[0].attrs:
+                    pl, have = a[0].attrs["$poslist"]
+                    if kind == "sorted":
+                        return pl.view("sorted")                                  # sorting forgets the order it came in
+                    return pl.view({"list": "reversed", "reversed": "list"}.get(have) or _no_list_contract(f"reversed({have})"))
+                r = builtin.impl(I_, a, k)
+                return (yield from r) if builtin.gen else r
+            return f
         for m in modules:
             w.stubs[(m, "list")] = native(lst)
             w.stubs[(m, "min")] = native(mk("min", bmin))
             w.stubs[(m, "max")] = native(mk("max", bmax))
+            w.stubs[(m, "sorted")] = native(mkview("sorted", bsorted))
+            w.stubs[(m, "reversed")] = native(mkview("reversed", breversed))
 
 
 def movable(name, **attrs):
@@ -927,8 +1039,35 @@ QOLP = f"{MPP}:outer_list_product"
 OLP_ENS = QOLP + "#ensures[snake_cyclers over cycler(motor_i, list_i), slowest first; snake_axes False: none snaked, True: every axis but the slowest, a list: exactly the listed axes]"
 
 
-def list_axes(w, n):
-    return [{"motor": movable(f"motor{i}"), "list": position_list(w, i)[0]} for i in range(n)]
+def list_axes(w, n, lens=None):
+    """n axes given by position lists: of arbitrary length (PosList) or, for lens = (k_0, ..), real Python lists of k_i
+    symbolic positions (enumerated shape, arbitrary contents: repeated, descending, non-monotone ...)"""
+    if lens is None:
+        return [{"motor": movable(f"motor{i}"), "list": position_list(w, i)[0], "values": None} for i in range(n)]
+    out = []
+    for i in range(n):
+        vals = [w.real(f"list{i}_at_{k}") for k in range(lens[i])]
+        out.append({"motor": movable(f"motor{i}"), "list": list(vals), "values": vals})
+    return out
+
+
+def list_len(a):
+    return a["list"].attrs["$len"] if a["values"] is None else len(a["values"])
+
+
+def list_col(a):
+    return ("list", a["list"]) if a["values"] is None else ("values", tuple(a["values"]))
+
+
+def extents_ok(ext, a):
+    """statement: the recorded extents of an axis are the lowest and the highest position it visits"""
+    if not isinstance(ext, (list, tuple)) or len(ext) != 2:
+        return False
+    if a["values"] is None:
+        return And(Eq(ext[0], a["list"].attrs["$min"]), Eq(ext[1], a["list"].attrs["$max"]))
+    vs = a["values"]
+    return And(*[ops.compare("<=", ext[0], v) for v in vs], Or(*[Eq(ext[0], v) for v in vs]),
+               *[ops.compare(">=", ext[1], v) for v in vs], Or(*[Eq(ext[1], v) for v in vs]))
 
 
 def snake_request(w, ax, kinds=("False", "True", "list")):
@@ -945,7 +1084,7 @@ def snake_request(w, ax, kinds=("False", "True", "list")):
 
 
 def list_grid_descr(ax, snaking):
-    return ("snake", tuple(("col", a["motor"], ("list", a["list"])) for a in ax), tuple(snaking))
+    return ("snake", tuple(("col", a["motor"], list_col(a)) for a in ax), tuple(snaking))
 
 
 def _outer_list_product_task(n):
@@ -977,8 +1116,8 @@ class PlanHarness:
     arguments of the one scan_nd call are checked by `check(call args, call kwargs) -> condition`"""
 
     def __init__(self, I, qual, replay, info, hook_qual=QS, hook_name="scan_nd", returns=True, name=None):
-        self.I, self.qual = I, qual
-        self.b, self.ref = new_bisim(I, name or qual, replay=replay)
+        self.I, self.qual, self.name = I, qual, name or qual
+        self.b, self.ref = new_bisim(I, self.name, replay=replay)
         self.b.extra = lambda: info
         self.calls = []
         self.Pi, self.Pr = self.b.absgen_pair(hook_name)
@@ -988,16 +1127,39 @@ class PlanHarness:
         self.per_step = None if I.w.choose(["default", "custom"], "per_step") == "default" else Opaque("per_step", {"token": "fn", "isinstance_default": False, "truth": True, "callable": True})
         PatternEnv(I)
         pattern_enum(I)
+        # repr (assumed contract): a function of the object - asked twice about the same device / list it answers the same
+        self.reprs = []
+        from pyvc.builtins_ import repr_of
+
+        def rp(x):
+            if isinstance(x, (list, tuple)) and any(isinstance(e, Opaque) for e in x):
+                for y, s in self.reprs:
+                    if y is x:
+                        return s
+                self.reprs.append((x, repr_of(I, x)))
+                return self.reprs[-1][1]
+            return repr_of(I, x)
+        self.rp = rp
+        I.w.stubs[(MP, "repr")] = native(lambda I_, a, k: rp(a[0]))
 
     def hook(self, I_, f, a, k):
         self.calls.append((list(a), dict(k)))
-        name = getattr(self, "check_name", self.qual + DELEG)
+        name = getattr(self, "check_name", self.name + DELEG)
         if len(self.calls) > 1:
             self.I.w.fail(name, self.b.info("second call of scan_nd"))
         else:
-            self.I.w.check(name, self.check(list(a), dict(k)), self.b.info("arguments of the scan_nd call"))
+            res = self.check(list(a), dict(k))
+            cond, more = res if isinstance(res, tuple) else (res, [])
+            self.I.w.check(name, cond, {**self.b.info("arguments of the scan_nd call"), "clause": "trajectory"})
+            for nm, c, clause in more:
+                self.I.w.check(nm, c, {**self.b.info("metadata handed to scan_nd"), "clause": clause})
         return self.Pi
         yield
+
+    def plan_args(self, md_args, **extra):
+        """what 'plan_args' documents: the call, spelled with reprs - the detectors, the per-axis arguments in the
+        order given, per_step (+ plan-specific entries)"""
+        return {"detectors": [self.rp(d) for d in self.dets], **extra, "args": md_args, "per_step": self.rp(self.per_step)}
 
     def run(self, args, kwargs, check):
         I = self.I
@@ -1019,8 +1181,30 @@ def effective_num_points(md, length):
     return md.get("num_points", length)
 
 
+ARGS = "#ensures[recorded plan_args / plan_pattern_args spell out the call: detectors, per axis the motor and its numbers / positions in the order given, num, per_step]"
+COUNTS = "#ensures[recorded num_points == number of points of the trajectory, num_intervals == num_points - 1]"
+MD_PASS = "#ensures[every entry of the md argument is handed on to scan_nd as given]"
+ARGS_1D = "#ensures[recorded num_intervals == num - 1; plan_args / plan_pattern_args spell out the call: detectors, motor, start, stop, num, per_step]"
+
+
+def one_motor_md_ok(I, m, dets, motor, start, stop, num, default_per_step):
+    from pyvc.builtins_ import repr_of
+    want = {"detectors": [repr_of(I, d) for d in dets], "num": num, "start": start, "stop": stop, "motor": repr_of(I, motor)}
+    pa = m.get("plan_args")
+    if not isinstance(pa, dict) or set(pa) != set(want) | {"per_step"} or (default_per_step and pa["per_step"] != "None"):
+        return False
+    return And(Eq(m.get("num_intervals"), ops.binop("-", num, 1)), same_value(I, {k: v for k, v in pa.items() if k != "per_step"}, want),
+               same_value(I, m.get("plan_pattern_args"), {"start": start, "stop": stop, "num": num}))
+
+
+def counts_ok(md, length, points):
+    """what the start document ends up with (scan_nd: the md argument wins over its own len(cycler) entries - task scan_nd[...],
+    clause 'the md argument is recorded')"""
+    return And(Eq(md.get("num_points", length), points), Eq(md.get("num_intervals", ops.binop("-", length, 1)), ops.binop("-", points, 1)))
+
+
 def _scan_task(n):
-    @task(f"scan[{n} motors]", PROP, functions=[QSC, QIP], expect=[QSC + TRACE, QSC + OUTCOME, QSC + DELEG],
+    @task(f"scan[{n} motors]", PROP, functions=[QSC, QIP], expect=[QSC + TRACE, QSC + OUTCOME, QSC + DELEG, QSC + ARGS, QSC + COUNTS, QSC + MD_PASS],
           covers=[f"{QSC}: terminated by return"])
     def t(I):
         w = I.w
@@ -1033,18 +1217,29 @@ def _scan_task(n):
         cols = tuple(("col", a["motor"], ("linspace", a["start"], a["stop"], num, True)) for a in ax)
         want = ("zip", cols) if n > 1 else cols[0]
 
+        # a calling plan (x2x_scan via rel_scan) describes itself in md: those entries must reach scan_nd as given
+        given = {"plan_name": "x2x_scan", "plan_args": {"num": w.int("md_num"), "motor1": "a"}, "purpose": "user"} if w.choose([None, "caller"], "md") else {}
+
         def check(a, k):
             if not h.common(a, k):
                 return False
             d, md = descr_of(a[1]), k["md"]
-            if d is None or tuple(md.get("motors", ())) != tuple(x["motor"].name for x in ax) or md.get("plan_name") != "scan":
+            if d is None or tuple(md.get("motors", ())) != tuple(x["motor"].name for x in ax) or (not given and md.get("plan_name") != "scan"):
                 return False
-            return And(same_value(I, d, want), Eq(effective_num_points(md, a[1].attrs["$model"].length), num),
-                       Eq(md.get("plan_pattern_args", {}).get("num"), num))
+            md_args = [x for y in ax for x in (h.rp(y["motor"]), y["start"], y["stop"])]
+            return (And(same_value(I, d, want), Eq(effective_num_points(md, a[1].attrs["$model"].length), num),
+                        Eq(md.get("plan_pattern_args", {}).get("num"), num)),
+                    [(QSC + ARGS, And(same_value(I, md.get("plan_args"), given.get("plan_args") or h.plan_args(md_args, num=num)),
+                                      same_value(I, md.get("plan_pattern_args"), {"num": num, "args": md_args}),
+                                      md.get("plan_pattern") == "inner_product"), "args"),
+                     (QSC + MD_PASS, And(*[same_value(I, md.get(key), val) for key, val in given.items()]), "md"),
+                     (QSC + COUNTS, counts_ok(md, a[1].attrs["$model"].length, num), "counts")])
+        kw = {"per_step": h.per_step, **({"md": dict(given)} if given else {})}
+        h.b.extra = lambda: {"n": n, "num": how, "md": bool(given)}
         if how == "positional num":
-            h.run([list(h.dets)] + flat + [num], {"per_step": h.per_step}, check)
+            h.run([list(h.dets)] + flat + [num], kw, check)
         else:
-            h.run([list(h.dets)] + flat, {"num": num, "per_step": h.per_step}, check)
+            h.run([list(h.dets)] + flat, {"num": num, **kw}, check)
     return t
 
 
@@ -1075,17 +1270,27 @@ def inner_product_scan(I):
 QLS = f"{MP}:list_scan"
 
 
-def _list_scan_task(n):
-    @task(f"list_scan[{n} motors]", PROP, functions=[QLS, QILP], expect=[QLS + TRACE, QLS + OUTCOME, QLS + DELEG],
-          covers=[f"{QLS}: terminated by return"])
+CONCRETE_TAG = "[lists of 1-3 symbolic positions]"
+CONCRETE = "position lists of 1-3 positions (contents symbolic: repeated / descending / non-monotone lists included), 1-2 axes"
+
+
+def _list_scan_task(n, concrete=False):
+    Q = QLS + CONCRETE_TAG if concrete else QLS
+
+    @task(f"list_scan[{n} motors{', lists of 1-3 symbolic positions' if concrete else ''}]", PROP, functions=[QLS, QILP],
+          expect=[Q + TRACE, Q + OUTCOME, Q + DELEG, Q + ARGS, Q + COUNTS], covers=[f"{Q}: terminated by return"],
+          **({"bounded": CONCRETE} if concrete else {}))
     def t(I):
         w = I.w
-        h = PlanHarness(I, QLS, "scans.list_scan", {"n": n})
-        ax = list_axes(w, n)
-        lens = [a["list"].attrs["$len"] for a in ax]
-        w.add(And(*[Eq(lens[0], ln) for ln in lens[1:]]))                 # documented: all lists must have the same length
+        k_ = w.choose([1, 2, 3], "positions per list") if concrete else None
+        info = {"n": n, **({"lens": [k_] * n} if concrete else {})}
+        h = PlanHarness(I, QLS, "scans.list_scan", info, name=Q)
+        ax = list_axes(w, n, [k_] * n if concrete else None)
+        lens = [list_len(a) for a in ax]
+        if not concrete:
+            w.add(And(*[Eq(lens[0], ln) for ln in lens[1:]]))             # documented: all lists must have the same length
         flat = [x for a in ax for x in (a["motor"], a["list"])]
-        cols = tuple(("col", a["motor"], ("list", a["list"])) for a in ax)
+        cols = tuple(("col", a["motor"], list_col(a)) for a in ax)
         want = ("zip", cols) if n > 1 else cols[0]
 
         def check(a, k):
@@ -1094,14 +1299,21 @@ def _list_scan_task(n):
             d, md = descr_of(a[1]), k["md"]
             if d is None or list(md.get("motors", ())) != [x["motor"].name for x in ax] or md.get("plan_name") != "list_scan":
                 return False
-            # (num_intervals is not part of the statement: list_scan records 0, not -1, for empty position lists)
-            return And(same_value(I, d, want), Eq(effective_num_points(md, a[1].attrs["$model"].length), lens[0]))
+            md_args = [x for y in ax for x in (h.rp(y["motor"]), y["list"])]
+            length = a[1].attrs["$model"].length
+            # (domain: non-empty position lists, see TRUSTED - list_scan records num_intervals 0, not -1, for empty ones)
+            return (And(same_value(I, d, want), Eq(effective_num_points(md, length), lens[0])),
+                    [(Q + ARGS, And(same_value(I, md.get("plan_args"), h.plan_args(md_args)), same_value(I, md.get("plan_pattern_args"), {"args": md_args}),
+                                      md.get("plan_pattern") == "inner_list_product"), "args"),
+                     (Q + COUNTS, counts_ok(md, length, lens[0]), "counts")])
         h.run([list(h.dets)] + flat, {"per_step": h.per_step}, check)
     return t
 
 
 for _n in (1, 2, 3):
     _list_scan_task(_n)
+for _n in (1, 2):
+    _list_scan_task(_n, concrete=True)
 
 
 QGS = f"{MP}:grid_scan"
@@ -1118,7 +1330,8 @@ def _grid_scan_task(n, pattern):
     if pattern == 2 and n == 1:
         return
 
-    @task(f"grid_scan[{n} axes, pattern {pattern}]", PROP, functions=[QGS, f"{QGS}._set_snaking", QOP, QCH, QCL], expect=[QGS + TRACE, QGS + OUTCOME, QGS + DELEG],
+    @task(f"grid_scan[{n} axes, pattern {pattern}]", PROP, functions=[QGS, f"{QGS}._set_snaking", QOP, QCH, QCL],
+          expect=[QGS + TRACE, QGS + OUTCOME, QGS + DELEG, QGS + ARGS, QGS + COUNTS],
           covers=[f"{QGS}: terminated by return"])
     def t(I):
         w = I.w
@@ -1138,10 +1351,17 @@ def _grid_scan_task(n, pattern):
             if (d is None or tuple(md.get("motors", ())) != tuple(x["motor"].name for x in ax) or md.get("plan_name") != "grid_scan"
                     or not isinstance(md.get("shape"), tuple) or not isinstance(md.get("extents"), tuple) or not isinstance(md.get("snaking"), tuple)):
                 return False
-            return And(same_grid(I, d, want), same_value(I, md["shape"], tuple(x["num"] for x in ax)),
-                       same_value(I, md["extents"], tuple([x["start"], x["stop"]] for x in ax)),
-                       same_value(I, md["snaking"], tuple(flags)),
-                       Eq(effective_num_points(md, a[1].attrs["$model"].length), product(x["num"] for x in ax)))
+            # recorded args: the equivalent fully spelled call - per axis motor, start, stop, num and, from the second axis on,
+            # the snake flag in effect (so that plan_pattern(**plan_pattern_args) is the trajectory that was scanned)
+            md_args = [x for i, y in enumerate(ax) for x in [h.rp(y["motor"]), y["start"], y["stop"], y["num"]] + ([flags[i]] if i else [])]
+            points = product(x["num"] for x in ax)
+            return (And(same_grid(I, d, want), same_value(I, md["shape"], tuple(x["num"] for x in ax)),
+                        same_value(I, md["extents"], tuple([x["start"], x["stop"]] for x in ax)),
+                        same_value(I, md["snaking"], tuple(flags)),
+                        Eq(effective_num_points(md, a[1].attrs["$model"].length), points)),
+                    [(QGS + ARGS, And(same_value(I, md.get("plan_args"), h.plan_args(md_args)), same_value(I, md.get("plan_pattern_args"), {"args": md_args}),
+                                      md.get("plan_pattern") == "outer_product"), "args"),
+                     (QGS + COUNTS, counts_ok(md, a[1].attrs["$model"].length, points), "counts")])
         kw = {"per_step": h.per_step}
         if kind != "None" and pattern == 1:
             kw["snake_axes"] = snake_axes
@@ -1157,17 +1377,19 @@ for _n in (1, 2, 3):
 QLGS = f"{MP}:list_grid_scan"
 
 
-def _list_grid_scan_task(n):
-    @task(f"list_grid_scan[{n} axes]", PROP, functions=[QLGS, QOLP], expect=[QLGS + TRACE, QLGS + OUTCOME, QLGS + DELEG],
-          covers=[f"{QLGS}: terminated by return"])
+def _list_grid_scan_task(n, concrete=False):
+    Q = QLGS + CONCRETE_TAG if concrete else QLGS
+
+    @task(f"list_grid_scan[{n} axes{', lists of 1-3 symbolic positions' if concrete else ''}]", PROP, functions=[QLGS, QOLP],
+          expect=[Q + TRACE, Q + OUTCOME, Q + DELEG, Q + ARGS, Q + COUNTS], covers=[f"{Q}: terminated by return"],
+          **({"bounded": CONCRETE} if concrete else {}))
     def t(I):
         w = I.w
-        h = PlanHarness(I, QLGS, "scans.list_grid_scan", {"n": n})
-        ax = list_axes(w, n)
-        for a in ax:
-            w.add(a["list"].attrs["$len"] >= 1)
-        snake_axes, flags, kind = snake_request(w, ax, ("default", "False", "True", "list")) if True else None
-        h.b.extra = lambda: {"n": n, "snake_axes": kind, "flags": flags}
+        ks = [w.choose([1, 2, 3], f"positions in list {i}") for i in range(n)] if concrete else None
+        h = PlanHarness(I, QLGS, "scans.list_grid_scan", {"n": n}, name=Q)
+        ax = list_axes(w, n, ks)
+        snake_axes, flags, kind = snake_request(w, ax, ("default", "False", "True", "list"))
+        h.b.extra = lambda: {"n": n, "snake_axes": kind, "flags": flags, **({"lens": ks} if concrete else {})}
         flat = [x for a in ax for x in (a["motor"], a["list"])]
         want = list_grid_descr(ax, flags)
 
@@ -1176,12 +1398,19 @@ def _list_grid_scan_task(n):
                 return False
             d, md = descr_of(a[1]), k["md"]
             if (d is None or tuple(md.get("motors", ())) != tuple(x["motor"].name for x in ax) or md.get("plan_name") != "list_grid_scan"
-                    or not isinstance(md.get("shape"), tuple) or not isinstance(md.get("extents"), tuple)):
+                    or not isinstance(md.get("shape"), tuple) or not isinstance(md.get("extents"), tuple) or len(md["extents"]) != n):
                 return False
-            lens = [x["list"].attrs["$len"] for x in ax]
-            return And(same_grid(I, d, want), same_value(I, md["shape"], tuple(lens)),
-                       same_value(I, md["extents"], tuple([x["list"].attrs["$min"], x["list"].attrs["$max"]] for x in ax)),
-                       Eq(effective_num_points(md, a[1].attrs["$model"].length), product(lens)))
+            lens = [list_len(x) for x in ax]
+            md_args = [x for y in ax for x in (h.rp(y["motor"]), y["list"])]
+            length = a[1].attrs["$model"].length
+            sa = h.rp(snake_axes if kind != "default" else False)
+            return (And(same_grid(I, d, want), same_value(I, md["shape"], tuple(lens)),
+                        And(*[extents_ok(e, x) for e, x in zip(md["extents"], ax)]),
+                        Eq(effective_num_points(md, length), product(lens))),
+                    [(Q + ARGS, And(same_value(I, md.get("plan_args"), h.plan_args(md_args)),
+                                    same_value(I, md.get("plan_pattern_args"), {"args": md_args, "snake_axes": sa}), same_value(I, md.get("snake_axes"), sa),
+                                    md.get("plan_pattern") == "outer_list_product"), "args"),
+                     (Q + COUNTS, counts_ok(md, length, product(lens)), "counts")])
         kw = {"per_step": h.per_step}
         if kind != "default":
             kw["snake_axes"] = snake_axes
@@ -1191,6 +1420,8 @@ def _list_grid_scan_task(n):
 
 for _n in (1, 2, 3):
     _list_grid_scan_task(_n)
+for _n in (1, 2):
+    _list_grid_scan_task(_n, concrete=True)
 
 
 QX = f"{MP}:x2x_scan"
@@ -1198,7 +1429,7 @@ X_ENS = QX + "#ensures[is a relative scan(detectors, motor1, start, stop, motor2
 
 
 @task("x2x_scan", PROP, functions=[QX, f"{MP}:relative_inner_product_scan", f"{MP}:rel_scan", f"{MP}:rel_scan.inner_rel_scan"],
-      expect=[QX + TRACE, QX + OUTCOME, X_ENS], covers=[f"{QX}: terminated by return"])
+      expect=[QX + TRACE, QX + OUTCOME, X_ENS, QX + ARGS], covers=[f"{QX}: terminated by return"])
 def x2x_scan(I):
     w = I.w
     h = PlanHarness(I, QX, "scans.x2x_scan", {}, hook_qual=QSC, hook_name="scan", returns=False)
@@ -1224,7 +1455,9 @@ def x2x_scan(I):
               and all(x is y for x, y in zip(rec["reset"], (m1, m2))) and all(x is y for x, y in zip(rec["relative"], (m1, m2))))
         if not ok:
             return False
-        return And(Eq(a[2], start), Eq(a[3], stop), Eq(a[5], ops.binop("/", start, 2)), Eq(a[6], ops.binop("/", stop, 2)), Eq(a[7], num))
+        want_args = {"detectors": [h.rp(d) for d in h.dets], "motor1": "motor1", "motor2": "motor2", "start": start, "stop": stop, "num": num, "per_step": h.rp(h.per_step)}
+        return (And(Eq(a[2], start), Eq(a[3], stop), Eq(a[5], ops.binop("/", start, 2)), Eq(a[6], ops.binop("/", stop, 2)), Eq(a[7], num)),
+                [(QX + ARGS, same_value(I, k["md"].get("plan_args"), want_args), "args")])
     h.check_name = X_ENS
     h.run([list(h.dets), m1, m2, start, stop, num], {"per_step": h.per_step}, check)
 
@@ -1248,7 +1481,7 @@ QLOG = f"{MP}:log_scan"
 MD_LOG = QLOG + "#ensures[positions = numpy.logspace(start, stop, num); recorded num_points == num, motors / detectors named, staged = detectors + motor]"
 
 
-@task("log_scan", PROP, functions=[QLOG, f"{QLOG}.inner_log_scan"], expect=[QLOG + TRACE, QLOG + OUTCOME, MD_LOG],
+@task("log_scan", PROP, functions=[QLOG, f"{QLOG}.inner_log_scan"], expect=[QLOG + TRACE, QLOG + OUTCOME, MD_LOG, QLOG + ARGS_1D],
       covers=[f"{QLOG}: terminated by return", f"{QLOG}: closed at an established cut point"])
 def log_scan(I):
     w = I.w
@@ -1284,13 +1517,14 @@ def log_scan(I):
               and len(calls) == 1 and not calls[0][0] and set(calls[0][1]) == {"start", "stop", "num"})
         w.check(MD_LOG, And(Eq(m.get("num_points"), num), Eq(calls[0][1]["start"], start), Eq(calls[0][1]["stop"], stop), Eq(calls[0][1]["num"], num)) if ok else False,
                 b.info("metadata"))
+        w.check(QLOG + ARGS_1D, one_motor_md_ok(I, m, dets, motor, start, stop, num, how == "default") if isinstance(m, dict) else False, {**b.info("metadata"), "clause": "args"})
 
 
 Q1D = f"{MP}:_scan_1d"
 MD_1D = Q1D + "#ensures[positions = numpy.linspace(start, stop, num); recorded num_points == num, motors / detectors named, staged = detectors + motor]"
 
 
-@task("_scan_1d", PROP, functions=[Q1D, f"{Q1D}.inner_scan"], expect=[Q1D + TRACE, Q1D + OUTCOME, MD_1D],
+@task("_scan_1d", PROP, functions=[Q1D, f"{Q1D}.inner_scan"], expect=[Q1D + TRACE, Q1D + OUTCOME, MD_1D, Q1D + ARGS_1D],
       covers=[f"{Q1D}: terminated by return", f"{Q1D}: closed at an established cut point"])
 def scan_1d(I):
     """the one-motor scan body behind the private _rel_scan_1d (same shape as log_scan, linspace instead of logspace)"""
@@ -1325,6 +1559,7 @@ def scan_1d(I):
               and len(calls) == 1 and not calls[0][0] and set(calls[0][1]) == {"start", "stop", "num"})
         w.check(MD_1D, And(Eq(m.get("num_points"), num), Eq(calls[0][1]["start"], start), Eq(calls[0][1]["stop"], stop), Eq(calls[0][1]["num"], num)) if ok else False,
                 b.info("metadata"))
+        w.check(Q1D + ARGS_1D, one_motor_md_ok(I, m, dets, motor, start, stop, num, how == "default") if isinstance(m, dict) else False, {**b.info("metadata"), "clause": "args"})
 
 
 # ------------------------------------------------------------------------------------------------ must-fail twins
@@ -1376,6 +1611,20 @@ def twin_scan_nd(I):
     cache.default_factory = native(lambda I_, a, k: None)
     gr = I.call_value(I.global_lookup(ref, "ref_scan_points"), list(dets), seq.iterator(), Pr, cache, None)
     b.run(gi, gr)
+
+
+@task("list_grid_scan.twin", PROP, twin="twin:list_grid_scan[extents are the first and the last position]")
+def twin_extents(I):
+    """claiming that the recorded extents are [first, last] position of the list must be refuted: the abstract position list
+    does not make its first / last element its minimum / maximum (lists are not assumed ascending)"""
+    w = I.w
+    h = PlanHarness(I, QLGS, None, {}, name="twin:list_grid_scan")
+    ax = list_axes(w, 1)
+    pl = ax[0]["list"]
+    h.check_name = "twin:list_grid_scan[extents are the first and the last position]"
+    get = pl.spec["getitem"]
+    h.run([list(h.dets), ax[0]["motor"], pl], {"per_step": h.per_step},
+          lambda a, k: And(Eq(k["md"]["extents"][0][0], get(I, pl, 0)), Eq(k["md"]["extents"][0][1], get(I, pl, -1))))
 
 
 @task("grid_scan.twin", PROP, twin="twin:grid_scan[snake flags as requested]")
